@@ -45,11 +45,32 @@ def gen(rng, tier, idx):
              'dtype': rng.choice(DTYPES), 'encoding': rng.choice(['dense', 'csr', 'csc', 'csc']),
              'layer': rng.choice([None, None, 'counts']),
              'h5_chunks': rng.choice([None, None, [1, 1], [3, 2], [7, 5], [1000, 1000]])}
+        # index-width boundaries of the internal conversions: more than 2**8 (and, rarely, 2**16) rows or columns,
+        # read in one chunk that spans the boundary
+        shape_r = rng.random()
+        tall = wide = False
+        if shape_r < 0.07:
+            tall = True
+            m['n_rows'] = rng.choice([257, 300, 520])
+            m['n_cols'] = rng.choice([1, 3, 8])
+            m['density'] = rng.choice([0.3, 1.0])
+        elif shape_r < 0.10:
+            wide = True
+            m['n_rows'] = rng.choice([2, 5])
+            m['n_cols'] = rng.choice([257, 300])
+            m['density'] = rng.choice([0.3, 1.0])
+        elif tier == 'thorough' and shape_r < 0.105:
+            tall = True
+            m['n_rows'] = 65536 + rng.choice([1, 300])
+            m['n_cols'] = rng.choice([1, 2])
+            m['density'] = 1.0
+            m['h5_chunks'] = None
         n = m['n_rows']
-        acc = {'row_chunk_size': rng.randint(1, n + 3), 'max_gb': rng.choice([10, 1.0, 1e-6, 1e-9]),
+        acc = {'row_chunk_size': (rng.randint(1, n + 3) if not tall else rng.choice([n, n + 3, n - 1, 257, 256])),
+               'max_gb': rng.choice([10, 1.0, 1e-6, 1e-9]),
                'keep_open': rng.random() < 0.7, 'tmp_dir': rng.random() < 0.8,
                'chunks': [sorted([rng.randint(0, n), rng.randint(0, n)]) for _ in range(3)],
-               'batches': [rng.sample(range(n), rng.randint(1, n)) for _ in range(3)],
+               'batches': [rng.sample(range(n), rng.randint(1, min(n, 400))) for _ in range(3)],
                'odd_batches': [[], [0, 0], [n - 1, 0, n - 1]]}
         fault = None
         r = rng.random()
